@@ -5,6 +5,8 @@
 package main
 
 import (
+	"crypto/ecdsa"
+	"io"
 	"bufio"
 	"flag"
 	"fmt"
@@ -70,6 +72,7 @@ func main() {
 		os.Exit(2)
 	}
 	key, err := crypto.HexToECDSA("4c0883a69102937d6231471b5dbb6204fe5129617082792ae468d01a3f362318")
+	testKey = key
 	if err != nil {
 		panic(err)
 	}
@@ -127,6 +130,71 @@ func main() {
 			fmt.Fprintln(out, "END")
 			w.Close()
 		}
+	case "conc":
+		// histories that end in a block of 2-3 requests handled concurrently, every interleaving at lock granularity
+		// (bounded preemptions) explored by re-execution; one history is written per distinct outcome
+		fs := flag.NewFlagSet("conc", flag.ExitOnError)
+		seed := fs.Int64("seed", 1, "PRNG seed")
+		n := fs.Int("n", 10, "number of base histories")
+		steps := fs.Int("steps", 40, "events of the sequential prefix (approx)")
+		prof := fs.String("profile", "rotate", "generator profile")
+		bound := fs.Int("preemptions", 2, "preemption bound")
+		maxRuns := fs.Int("max", 400, "interleavings per block at most")
+		fs.Parse(os.Args[2:])
+		out := bufio.NewWriterSize(os.Stdout, 1<<20)
+		defer out.Flush()
+		profNames := []string{"mixed", "join", "comp", "module", "pose"}
+		totalExplored, totalDistinct, totalDead := 0, 0, 0
+		for i := 0; i < *n; i++ {
+			hseed := *seed*1_000_003 + int64(i)
+			rnd := rand.New(rand.NewSource(hseed))
+			cfg := Config{ReceiptCap: 128, Mods: "vod"}
+			p := *prof
+			if p == "rotate" {
+				p = profNames[i%len(profNames)]
+			}
+			// pilot run: the sequential prefix and the concurrent requests
+			pilot := NewWorld(cfg, key, bufio.NewWriter(io.Discard))
+			g := NewGen(rnd, pilot, p, 3+rnd.Intn(3))
+			g.RunPrefix(*steps)
+			conns := g.pickConcurrent(2 + rnd.Intn(2))
+			if len(conns) < 2 {
+				pilot.Close()
+				continue
+			}
+			prefix := append([]string(nil), pilot.RLog...)
+			// static probe after the block: a fresh connection joins every session that may exist and lists components
+			var post []string
+			sids := sortedKeys(pilot.know.sids)
+			extra := 0
+			if len(sids) > 0 {
+				extra = sids[len(sids)-1]
+			}
+			for k := 1; k <= 3; k++ {
+				sids = append(sids, extra+k)
+			}
+			pc := 90
+			post = append(post, fmt.Sprintf("tick %d", 1))
+			for _, c := range conns {
+				post = append(post, fmt.Sprintf("handle %d", c), fmt.Sprintf("handle %d", c))
+			}
+			for _, sid := range sids {
+				pc++
+				post = append(post, fmt.Sprintf("connect %d", pc),
+					fmt.Sprintf("recv %d join %d %d id %d", pc, 9000+pc, 9000+pc, sid), fmt.Sprintf("handle %d", pc))
+				for t := 1; t <= 4; t++ {
+					post = append(post, fmt.Sprintf("recv %d compList %d %d", pc, 9100+pc*10+t, t), fmt.Sprintf("handle %d", pc))
+				}
+				post = append(post, fmt.Sprintf("disconnect %d", pc))
+			}
+			pilot.Close()
+			header := cfg.Header(i, hseed) + " profile=" + p
+			e, d, dl := exploreConc(cfg, header, prefix, conns, post, *bound, *maxRuns, out)
+			totalExplored += e
+			totalDistinct += d
+			totalDead += dl
+		}
+		fmt.Fprintf(out, "CSTAT explored=%d distinct=%d deadlocks=%d\n", totalExplored, totalDistinct, totalDead)
 	case "stat":
 		fs := flag.NewFlagSet("stat", flag.ExitOnError)
 		seed := fs.Int64("seed", 1, "PRNG seed")
@@ -197,6 +265,8 @@ func main() {
 	}
 }
 
+var testKey *ecdsa.PrivateKey
+
 func execEvent(w *World, f []string) {
 	num := func(i int) int { n, _ := strconv.Atoi(f[i]); return n }
 	switch f[0] {
@@ -216,6 +286,22 @@ func execEvent(w *World, f []string) {
 		w.Disconnect(num(1))
 	case "drain":
 		w.DrainReceipts()
+	case "conc":
+		// conc <n> sched=<digits> | <conn> <request> | ...
+		var conns []int
+		var forced []int
+		for i, part := range strings.Split(strings.Join(f[1:], " "), " | ") {
+			pf := strings.Fields(part)
+			if i == 0 {
+				for _, ch := range strings.TrimPrefix(pf[1], "sched=") {
+					forced = append(forced, int(ch-'0'))
+				}
+				continue
+			}
+			c, _ := strconv.Atoi(pf[0])
+			conns = append(conns, c)
+		}
+		w.Conc(conns, forced)
 	default:
 		panic("unknown event " + f[0])
 	}
